@@ -47,6 +47,7 @@ type opIn struct {
 	SA   bool     `json:"sa,omitempty"`
 	Lose []uint64 `json:"lose,omitempty"`
 	Drop []uint64 `json:"drop,omitempty"`
+	PDrop []uint64 `json:"pdrop,omitempty"` // install: identity-page probe replies of these voters are lost
 	RB   *int     `json:"rb,omitempty"` // install: replace budget (crash before page rb+1)
 	Peer uint64   `json:"peer,omitempty"`
 	From uint64   `json:"from,omitempty"`
@@ -264,7 +265,7 @@ func (r *runner) observe(node ch.NodeID) replicaObs {
 }
 
 func faultsOf(op opIn) replication.VerifFaults {
-	f := replication.VerifFaults{Lose: nodeSet(op.Lose), Drop: nodeSet(op.Drop), ReplaceBudget: -1}
+	f := replication.VerifFaults{Lose: nodeSet(op.Lose), Drop: nodeSet(op.Drop), PageDrop: nodeSet(op.PDrop), ReplaceBudget: -1}
 	if op.RB != nil {
 		f.ReplaceBudget = *op.RB
 	}
@@ -276,7 +277,7 @@ func faultTerm(op opIn) string {
 	if op.RB != nil && *op.RB >= 0 {
 		rb = vh.Some(vh.N(uint64(*op.RB)))
 	}
-	return vh.App("Flt", vh.NList(op.Lose), vh.NList(op.Drop), rb)
+	return vh.App("Flt", vh.NList(op.Lose), vh.NList(op.Drop), rb, vh.NList(op.PDrop))
 }
 
 type stepObs struct {
